@@ -6,7 +6,7 @@ from hypothesis import strategies as st
 from core.outcome import Outcome, discard, observe
 from gen.objects import CARVERS, PIPELINES, STEPS, fit_object, fitted_case, make_object, object_dropna
 from gen.samples import build, summarize
-from oracles.mapping import is_missing, is_num, ref_group, groups_containing, values_equal, eq
+from oracles.mapping import content_of, is_missing, is_num, ref_group, groups_containing, values_equal, eq
 from oracles.views import feature_views, canonical_str
 
 PID = "C04"
@@ -67,6 +67,14 @@ def check_mapping(out: Outcome, obj, case, sample, frame, result, tag="", labell
             if is_missing(v) and not dropna:
                 if not is_missing(lab):
                     out.violate(f"{tag}missing-not-preserved-dropna-false", f"{feat}: missing value got label {lab!r} with dropna=False")
+                    break
+                continue
+            if not dropna and not quantitative and any(isinstance(m, str) and m == str_nan for m in content_of(order, leader)):
+                # a value filed with the missing values (ChainedDiscretizer, unknown_handling='drop': "merged with
+                # missing values", C18) is a missing value for the object: it stays missing like them
+                out.label("ordinary-value-in-missing-value-group")
+                if not is_missing(lab):
+                    out.violate(f"{tag}value-filed-with-missing-values-not-left-missing", f"{feat}: value {v!r} belongs to the missing-value group but got label {lab!r} with dropna=False")
                     break
                 continue
             if is_missing(lab):
